@@ -316,6 +316,32 @@ func authMode(seed int64, out *json.Encoder) error {
 			return true
 		})
 		_ = out.Encode(l2)
+		// path 3: behind a validly signed but unauthorised transaction of a stranger (it has already used a slot of the batch
+		// verifier when the authorisation check refuses it)
+		l3 := line
+		l3.Path = "batch-behind-unauthorised"
+		txnRun(func() bool {
+			x := w.xs["bls"]
+			t0 := mkTx(&fsm.MessageSend{FromAddress: sc.owner.addr, ToAddress: other, Amount: 5}, fee)
+			x.sign(t0)
+			t2 := mkTx(&fsm.MessageSend{FromAddress: x.addr, ToAddress: other, Amount: 2}, fee)
+			x.sign(t2)
+			b0, _ := lib.Marshal(t0)
+			b2, _ := lib.Marshal(t2)
+			before := snap(sc)
+			res := new(lib.ApplyBlockResults)
+			if e := s.ApplyTransactions(context.Background(), [][]byte{b0, bz, b2}, res, false); e != nil {
+				l3.Err = e.Error()
+			}
+			for _, r := range res.Results {
+				if bytes.Equal(r.Transaction.Signature.Signature, tx.Signature.GetSignature()) && r.MessageType == tx.MessageType && r.Transaction.Time == tx.Time {
+					l3.Applied = true
+				}
+			}
+			l3.Changed = snap(sc) != before
+			return true
+		})
+		_ = out.Encode(l3)
 	}
 	for _, okt := range allKT {
 		sc := scenes[okt]
@@ -445,6 +471,48 @@ func authMode(seed int64, out *json.Encoder) error {
 				tx := rlp(ownerKey, h)
 				f(tx)
 				cand("rlp-tampered:"+name, tx, "O", "O", false)
+			}
+			// pseudo contract calls: the message is protobuf inside the Ethereum call data and names its owner itself
+			victim := scenes["ethsecp256k1"]
+			call := func(k crypto.PrivateKeyI, contract, selector string, m proto.Message) *lib.Transaction {
+				ek, _ := ethCrypto.ToECDSA(k.Bytes())
+				chainID := new(big.Int).SetUint64(fsm.CanopyIdsToEVMChainId(1, 1))
+				pb, _ := lib.Marshal(m)
+				sel, _ := hex.DecodeString(selector)
+				etx := ethTypes.NewTransaction(h, common.HexToAddress(contract), big.NewInt(0), 100000, big.NewInt(10_000_000_000_000), append(sel, pb...))
+				signed, e := ethTypes.SignTx(etx, ethTypes.NewEIP155Signer(chainID), ek)
+				if e != nil {
+					panic(e)
+				}
+				raw, _ := signed.MarshalBinary()
+				tx, ce := fsm.RLPToCanopyTransaction(raw)
+				if ce != nil {
+					return nil
+				}
+				return tx
+			}
+			calls := []struct {
+				name, contract, selector string
+				m                        proto.Message
+			}{
+				{"subsidy", fsm.CNPYContractAddress, fsm.SubsidySelector, &fsm.MessageSubsidy{Address: victim.owner.addr, ChainId: 1, Amount: 555}},
+				{"createOrder", fsm.SwapCNPYContractAddress, fsm.CreateOrderSelector, &fsm.MessageCreateOrder{ChainId: 2, AmountForSale: 3000, RequestedAmount: 3, SellerReceiveAddress: xAddr, SellersSendAddress: victim.owner.addr}},
+				{"deleteOrder", fsm.SwapCNPYContractAddress, fsm.DeleteOrderSelector, &fsm.MessageDeleteOrder{OrderId: victim.order, ChainId: 2}},
+				{"unstake", fsm.StakedCNPYContractAddress, fsm.UnstakeSelector, &fsm.MessageUnstake{Address: victim.valAdr}},
+			}
+			for _, cl := range calls {
+				rname := "O"
+				if cl.name == "unstake" {
+					rname = "OUT"
+				}
+				if tx := call(strangerKey, cl.contract, cl.selector, cl.m); tx != nil {
+					l := AuthLine{E: "auth", Msg: cl.name, OwnerKey: "ethsecp256k1", KeyType: "rlp", Role: "rlp-call-by-stranger", Signer: "X", Presented: "X", Genuine: true, Quorum: true}
+					apply(victim, tx, l)
+					tx2 := call(strangerKey, cl.contract, cl.selector, cl.m)
+					tx2.Signature.PublicKey = victim.owner.pub
+					l.Role, l.Presented = "rlp-call-by-stranger-presents-rightful-key", rname
+					apply(victim, tx2, l)
+				}
 			}
 			// the raw Ethereum transaction of the owner presented without the RLP marker: an ordinary signature check must fail
 			{
